@@ -242,6 +242,88 @@ theorem stream_meets_spec [DecidableEq μ] [DecidableEq ρ] (watch : Bool) (max 
     have h4 : r.final.reqs.length = 1 := by rw [hreq', srv_zero]; simp
     simp [h1, h2, h3, h4, srv_zero]
 
+/-- `stream_meets_spec_cancelled`: the same for runs the caller ENDED by cancelling after `n` messages
+(the run's error is a cancellation error): the delivered messages are the first `n` of the
+concatenation, the server saw no request after the cancellation (`seenAtCancel` = what it had seen),
+the budget was never exceeded; "gave up only after the budget" does not apply to a cancelled run.
+
+Which theorem covers which class of run the oracle judges:
+* ended with the stream's own error (EOF / status error) ............ `stream_meets_spec`
+* caller cancelled after `n` messages ............................... `stream_meets_spec_cancelled`
+* caller cancelled while `Recv` was blocked on a silent stream ...... `stream_meets_spec_blocked_cancel`
+* a run left blocked for ever is not judged (the harness always cancels a hanging script);
+  runs on the decorated transport (`reach = cancelIs = true`) are covered for the cancellation step by
+  `cancelled_never_retried_when_error_is_canceled` and otherwise behave as above. -/
+theorem stream_meets_spec_cancelled [DecidableEq μ] [DecidableEq ρ] (watch : Bool) (max n : Nat)
+    (script : List (Stream μ)) (req : ρ)
+    (hc : isCancelErr (runStream assumedReach grpcCancelIs watch max (some n) false script req).err = true) :
+    let r := runStream assumedReach grpcCancelIs watch max (some n) false script req
+    ∃ k, specStream watch max (some n) false script req r.delivered (k + 1) r.final.reqs r.final.reqs.length = [] := by
+  intro r
+  obtain ⟨k, hk, hreq, hmsg, b1, _⟩ := run_facts watch max (some n) script req
+  have hlen : r.delivered.length = n := recvLoop_cancel_length watch max _ n _ hc
+  have hreq' : r.final.reqs = List.replicate (1 + srv script.tail k) req := hreq
+  have hall : (openedFrom script (k + 1)).flatMap (·.msgs) = r.delivered ++ r.final.cur := by
+    rw [flatMap_openedFrom]; exact hmsg.symm
+  refine ⟨k, ?_⟩
+  unfold specStream
+  have hf : (some n : Option Nat).filter (fun m => decide (m ≤ r.delivered.length)) = some n := by
+    simp [Option.filter, hlen]
+  simp only [hf, Option.isSome_some, Bool.true_or, Bool.not_true, Bool.false_and, Nat.add_sub_cancel]
+  have h1 : (r.final.reqs.all (· == req)) = true := by rw [hreq']; simp
+  have h2 : r.final.reqs.length ≥ 1 := by rw [hreq']; simp
+  have h2' : (r.final.reqs.length == 1 + srv script.tail k) = true := by rw [hreq']; simp
+  have h3 : (r.delivered == ((openedFrom script (k + 1)).flatMap (·.msgs)).take n) = true := by
+    rw [hall, ← hlen]; simp
+  have h3' : n ≤ ((openedFrom script (k + 1)).flatMap (·.msgs)).length := by
+    rw [hall, ← hlen]; simp
+  cases watch with
+  | true =>
+    simp [h1, h2, h3, b1]
+    exact ⟨by simpa using h2', by simpa [List.length_flatMap] using h3'⟩
+  | false =>
+    have hk0 := hk rfl
+    subst hk0
+    have h4 : r.final.reqs.length = 1 := by rw [hreq', srv_zero]; simp
+    simp [h1, h2, h4, srv_zero]
+    exact ⟨by simpa using h3, by simpa [List.length_flatMap] using h3'⟩
+
+/-- `stream_meets_spec_blocked_cancel`: … and for runs the caller ended by cancelling while `Recv` was
+blocked on a silent stream (everything sent was delivered, no request after the cancellation) -/
+theorem stream_meets_spec_blocked_cancel [DecidableEq μ] [DecidableEq ρ] (watch : Bool) (max : Nat)
+    (script : List (Stream μ)) (req : ρ) :
+    let r := runStream assumedReach grpcCancelIs watch max none true script req
+    ∃ k, specStream watch max none true script req r.delivered (k + 1) r.final.reqs r.final.reqs.length = [] := by
+  intro r
+  obtain ⟨hd, hq, _, _⟩ := blocked_cancel_never_retried watch max script req
+  obtain ⟨k, hk, hreq, hmsg, b1, _⟩ := run_facts watch max none script req
+  have hnil : (runStream assumedReach grpcCancelIs watch max none false script req).final.cur = [] := by
+    apply recvLoop_cur_nil _ _ _ _ (start_quiet _ _)
+    cases script with
+    | nil => simp [remaining, start, totalMsgs]
+    | cons s rs => simp [remaining, start, totalMsgs]
+  have hd' : r.delivered = (runStream assumedReach grpcCancelIs watch max none false script req).delivered := hd
+  have hq' : r.final.reqs = (runStream assumedReach grpcCancelIs watch max none false script req).final.reqs := hq
+  have hreq' : r.final.reqs = List.replicate (1 + srv script.tail k) req := by rw [hq']; exact hreq
+  have hdel : r.delivered = (openedFrom script (k + 1)).flatMap (·.msgs) := by
+    rw [hd', flatMap_openedFrom]
+    have := hmsg
+    rw [hnil, List.append_nil] at this
+    exact this
+  refine ⟨k, ?_⟩
+  unfold specStream
+  simp only [Option.filter_none, Option.isSome_none, Bool.false_or, Bool.not_true, Bool.false_and, Nat.add_sub_cancel]
+  have h1 : (r.final.reqs.all (· == req)) = true := by rw [hreq']; simp
+  have h2 : r.final.reqs.length ≥ 1 := by rw [hreq']; simp
+  have h3 : (r.delivered == (openedFrom script (k + 1)).flatMap (·.msgs)) = true := by rw [← hdel]; simp
+  cases watch with
+  | true => simp [h1, h2, h3, b1, hreq']
+  | false =>
+    have hk0 := hk rfl
+    subst hk0
+    have h4 : r.final.reqs.length = 1 := by rw [hreq', srv_zero]; simp
+    simp [h1, h2, h3, h4, srv_zero]
+
 /-- unary calls: between 1 and `max + 1` attempts, stopping at the first success … -/
 theorem unary_attempts (max : Nat) (outs : List Bool) :
     1 ≤ (runUnary max outs).1 ∧ (runUnary max outs).1 ≤ max + 1 ∧
